@@ -214,3 +214,13 @@ contract(
                "locals": {"parent": Opt(Ref("Resource")), "parent_limits": Opt(Ref("Limits"))}}},
     locals={"parent": Opt(Ref("Resource"))},
 )
+
+# ---- "is this slot booked for a task": only Task entries count, marker words (leaves, off-shift) do not -----------------
+contract(
+    RS + "::ResourceScenario.booked", props=["C01", "C02"],
+    params={"self": Ref("ResourceScenario"), "sb_idx": Int}, ret=Bool,
+    requires=[("idx", "implies(self.scoreboard is not None, 0 <= sb_idx and sb_idx < len(some(self.scoreboard).sb))")],
+    ensures=[("task-only", "result == (self.scoreboard is not None and some(self.scoreboard).sb[sb_idx] is not None and "
+                           "some(some(self.scoreboard).sb[sb_idx]).is_task)")],
+    modifies=[],
+)
